@@ -147,7 +147,11 @@ theorem src_contained (T : Tables) (env : SrcEnv) (h : AHdr) (creator : Text) (x
     · simp only [List.forall_mem_cons]; exact ⟨by decide, by decide, hnil⟩
     · exact hnil
   · split
-    · simp only [List.forall_mem_cons]; exact ⟨by decide, by decide, hnil⟩
+    · simp only [List.forall_mem_append, List.forall_mem_cons]
+      refine ⟨⟨by decide, by decide, hnil⟩, ?_⟩
+      split
+      · simp only [List.forall_mem_cons]; exact ⟨by decide, hnil⟩
+      · exact hnil
     · exact hnil
   · split
     · exact hnil
@@ -158,9 +162,13 @@ theorem skip_plugins_ud (T : Tables) (env env' : UdEnv) (creator : Text) (comp s
     parseUserData T env false creator comp sub ver data = parseUserData T env' false creator comp sub ver data := by
   unfold parseUserData
   simp
-theorem skip_plugins_src (T : Tables) (env env' : SrcEnv) (h : AHdr) (creator : Text) (x : ASrc) :
+/-- (the message registry is data, not a parser module: `--skip-parser-plugins` does not switch it off, so the two
+    environments are compared over the same registry) -/
+theorem skip_plugins_src (T : Tables) (env env' : SrcEnv) (h : AHdr) (creator : Text) (x : ASrc)
+    (hr : env.registry = env'.registry) :
     renderSrc T env h creator false x = renderSrc T env' h creator false x := by
   unfold renderSrc renderCallout procDescription
+  rw [hr]
   simp
 
 /-- ★ the I/O-drawer plugin always returns a JSON object -/
